@@ -47,6 +47,9 @@ class Report:
 
     def add_gen(self, g):
         self.gens.append({k: g[k] for k in ("task", "paths", "gen_s", "feas_checks")})
+        if not hasattr(self, "lemma_functions"):
+            self.lemma_functions = {}
+        self.lemma_functions.setdefault(g["task"][1], set()).update(f["qualname"] for f in g["functions"])
         for f in g["functions"]:
             self.functions[f["qualname"]] = f
         self.notes.update(g["notes"])
@@ -236,6 +239,7 @@ class Report:
             "solver_time_s": round(solver_time, 2),
             "slowest": slow[:5],
             "functions_under_contract": sorted(self.functions.values(), key=lambda f: f["qualname"]),
+            "functions_by_lemma": {k: sorted(v) for k, v in sorted(getattr(self, "lemma_functions", {}).items())},
             "lemmas": sorted(set(d["lemma"] for d in self.obs)),
             "configurations": sorted(set(d["config"] for d in self.obs if d["config"])),
             "generation": {"tasks": len(self.gens), "errors": len(self.gen_errors),
